@@ -40,7 +40,38 @@ func genC16Page(r *Rand, g *Gen, idx int) *c16Page {
 	tags := []string{"span", "b", "p", "style", "em"}
 	for i := 0; i < n; i++ {
 		tag := Pick(r, tags)
-		switch r.Intn(11) {
+		switch r.Intn(15) {
+		case 14: // two different components with the same file name in different directories
+			ma, mb := mk(), mk()
+			ca, cb := fmt.Sprintf("components/shop%s/Card.vuego", ma), fmt.Sprintf("components/blog%s/Card.vuego", ma)
+			g.put(ca, fmt.Sprintf(`<%s v-once>%s</%s>`, tag, ma, tag))
+			g.put(cb, fmt.Sprintf(`<%s v-once>%s</%s>`, tag, mb, tag))
+			parts = append(parts, fmt.Sprintf(`<template include="%s"></template>`, ca), fmt.Sprintf(`<template include="%s"></template>`, cb))
+			p.markers[ma] = func(int, bool) int { return 1 }
+			p.markers[mb] = func(int, bool) int { return 1 }
+		case 11: // component whose root is a <template> wrapper (with :required), included k times
+			m := mk()
+			comp := fmt.Sprintf("components/Once%s.vuego", m)
+			g.put(comp, fmt.Sprintf(`<template :required="label"><div class="wrapped"><%s v-once>%s</%s><u>{{ label }}</u></div></template>`, tag, m, tag))
+			k := 1 + r.Intn(3)
+			for j := 0; j < k; j++ {
+				parts = append(parts, fmt.Sprintf(`<template include="%s" label="use%d"></template>`, comp, j))
+			}
+			p.markers[m] = func(int, bool) int { return 1 }
+		case 12: // v-once element that is also the v-if branch taken
+			m := mk()
+			parts = append(parts, fmt.Sprintf(`<%s v-if="flag" v-once>%s</%s><%s v-else>no</%s>`, tag, m, tag, tag, tag))
+			p.markers[m] = func(_ int, flag bool) int {
+				if flag {
+					return 1
+				}
+				return 0
+			}
+		case 13: // v-once inside slot content handed to a component that is used twice
+			m := mk()
+			g.put("components/SlotHost.vuego", `<div class="host"><slot></slot></div>`)
+			parts = append(parts, fmt.Sprintf(`<template include="components/SlotHost.vuego"><%s v-once>%s</%s></template>`, tag, m, tag), `<template include="components/SlotHost.vuego"><i>other</i></template>`)
+			p.markers[m] = func(int, bool) int { return 1 }
 		case 0: // top level
 			m := mk()
 			parts = append(parts, fmt.Sprintf(`<%s v-once>%s</%s>`, tag, m, tag))
